@@ -605,6 +605,11 @@ class Monitor:
                     # reference state machine of a machine created while the simulation is under way: everything
                     # counts from its creation
                     self.refs[d.name] = ProcRef(self, d)
+                if isinstance(d, Source):
+                    # its first cycle starts when it is created
+                    self.src_last[d.name] = self.env.now
+                    self.src_cost[d.name] = 0
+                    continue
                 d.add_receive_part_callback(self.on_recv)
                 self.watch_acceptance(d)
                 if single_slot(d):
